@@ -15,6 +15,7 @@ import (
 	"runtime"
 	"runtime/debug"
 	"sort"
+	"strconv"
 	"strings"
 	"sync"
 	"sync/atomic"
@@ -251,9 +252,18 @@ func (r *Run) Section(name string, n int, opts SectionOpts, fn func(c *Case)) {
 	if r.Quick() && r.quickScale > 0 && !opts.NoScale {
 		n = int(float64(n)*r.quickScale + 0.5)
 	}
+	if d, _ := strconv.Atoi(os.Getenv("VERIF_BUDGET_DIV")); d > 1 && n > 24 {
+		// diagnostic runs only (tools/coverage.sh): a fraction of the cases; such a run
+		// usually ends INCONCLUSIVE because the Require counters are not reached
+		if n = n / d; n < 24 {
+			n = 24
+		}
+	}
 	if os.Getenv("VERIF_TIMING") != "" {
 		t0 := time.Now()
-		defer func() { fmt.Fprintf(os.Stderr, "TIMING section=%s cases=%d wall=%.1fs\n", name, n, time.Since(t0).Seconds()) }()
+		defer func() {
+			fmt.Fprintf(os.Stderr, "TIMING section=%s cases=%d wall=%.1fs\n", name, n, time.Since(t0).Seconds())
+		}()
 	}
 	if r.Replaying() {
 		if name != r.replaySection {
